@@ -84,6 +84,17 @@ class Rec:
     def add(self, name: str, n: int = 1) -> None:
         self.extra[name] = self.extra.get(name, 0) + n
 
+    def checkpoint(self, every: float = 10.0) -> None:
+        """dump partial results so that a shard killed by the wall-clock watchdog still reports what it observed"""
+        path = getattr(self, "_out", None)
+        now = time.time()
+        if path and now - getattr(self, "_last_dump", 0) > every:
+            self._last_dump = now
+            tmp = path + ".tmp"
+            with open(tmp, "w") as f:
+                json.dump(self.to_json(), f, default=str)
+            os.replace(tmp, path)
+
     def note(self, text: str) -> None:
         if len(self.notes) < 50:
             self.notes.append(text)
@@ -182,9 +193,19 @@ def run_shards(check: str, specs: list[dict], timeout: float, nproc: int = NPROC
             p = subprocess.run([PY, "-m", "vf.worker", check, sp, op], env=e, cwd=tmp,
                                timeout=spec.get("_timeout", timeout), capture_output=True, text=True)
         except subprocess.TimeoutExpired:
-            r = Rec()
-            r.inconc("watchdog: shard exceeded wall-clock limit", {"shard": spec.get("_label", i)})
-            return r.to_json()
+            res = None
+            if os.path.exists(op):  # the worker checkpoints partial results
+                try:
+                    with open(op) as f:
+                        res = json.load(f)
+                except Exception:  # pylint: disable=broad-except
+                    res = None
+            if res is None:
+                res = Rec().to_json()
+            res["inconclusive"]["watchdog: shard exceeded wall-clock limit (partial results kept)"] = 1
+            res["inconclusive_examples"].setdefault("watchdog: shard exceeded wall-clock limit (partial results kept)",
+                                                    {"shard": spec.get("_label", i)})
+            return res
         if os.path.exists(op):
             try:
                 with open(op) as f:
@@ -327,13 +348,17 @@ def report(prop: str, tier: str, seed: int, merged: dict, rule: str, assumptions
 
 
 class Watchdog:
-    """signal.alarm based per-case watchdog; firing raises TimeoutError inside the worker."""
+    """signal.alarm based per-case watchdog; firing raises TimeoutError inside the worker.  The alarm re-arms itself
+    every second until the guarded block is left, because SymPy/mpmath swallow exceptions in some evalf retry loops."""
 
     def __init__(self, seconds: int) -> None:
         self.seconds = seconds
+        self.fired = False
 
     def __enter__(self):
         def handler(signum, frame):
+            self.fired = True
+            signal.alarm(1)
             raise TimeoutError("watchdog")
         self.old = signal.signal(signal.SIGALRM, handler)
         signal.alarm(self.seconds)
